@@ -2,7 +2,7 @@
    Only theorem statements, each closed by an exact lemma, and Print Assumptions. *)
 Require Import Verif.Common.Base Verif.Common.LockEv.
 Require Import Verif.Model.C20 Verif.Spec.C20 Verif.Proof.C20.
-Require Import Verif.Proof.C20_race Verif.Proof.C20_lin Verif.Proof.C20_ns Verif.Proof.C20_hist Verif.Proof.C20_nsgen.
+Require Import Verif.Proof.C20_race Verif.Proof.C20_lin Verif.Proof.C20_ns Verif.Proof.C20_hist Verif.Proof.C20_nsgen Verif.Proof.C20_live.
 Open Scope Z_scope.
 
 (* ---- back-off: attempts 0..30, durations in ns on int64 ---- *)
@@ -116,6 +116,25 @@ Theorem C20_contents_by_registrations :
     s_data s' = s_data s \/ written_by s t s'.
 Proof. intros D X. exact (@contents_by_registrations D X). Qed.
 Print Assumptions C20_contents_by_registrations.
+
+(* a disciplined path never acquires a lock (read or write) while it holds one: a goroutine never
+   blocks on a lock it holds itself; in particular no recursive read lock, which sync.RWMutex turns
+   into a deadlock as soon as a writer arrives between the two acquisitions *)
+Theorem C20_disciplined_no_nested_lock : forall l pre e post h,
+  disciplined l = true -> l = pre ++ e :: post -> lev_run HNone pre = Some h -> is_acquire e = true ->
+  h = HNone.
+Proof. exact disciplined_no_nested_lock. Qed.
+Print Assumptions C20_disciplined_no_nested_lock.
+
+(* no deadlock: any number of threads, disciplined operations on one lock, every schedule - in
+   every reachable state in which some thread has not finished, some thread has an enabled step *)
+Theorem C20_no_deadlock :
+  forall (D X : Type) (m : string) (progs : list (list (@op D X))) (dat : string -> option D) sched s,
+    wf_progs m progs -> (forall o, dat o <> None) ->
+    run (init progs dat) sched = Some s -> finished s = false ->
+    exists t s', step s t = Some s'.
+Proof. intros D X. exact (@no_deadlock D X). Qed.
+Print Assumptions C20_no_deadlock.
 
 (* documented witness about the event list of Namespaced.Register BEFORE the repair (two
    self-locking calls outside any critical section): it fails the discipline, and there is an
@@ -282,3 +301,9 @@ Example C20_ex_calls_atomic_rlock :
          [0; 1; 0; 1; 0; 1; 0; 1; 0; 1; 0; 1]) =
   Some (true, Some [("ns", [("b", 2%Z)])]).
 Proof. split; vm_compute; reflexivity. Qed.
+
+(* a lookup that read-locks around a nested read-locked lookup (getRender holding the lock around
+   getWithFallback) is not disciplined: the regenerated path fails the obligation *)
+Example C20_ex_recursive_rlock_refuted :
+  disciplined [LRLock "mutex"; LRLock "mutex"; LRead "renderRegister"; LRUnlock "mutex"; LRUnlock "mutex"] = false.
+Proof. vm_compute. reflexivity. Qed.
